@@ -72,7 +72,7 @@ def vmess_cases(prog, tier):
     # 3. server Init
     fs = prog.find_impl_fn('ServerAeadCodec', 'decode', trait='Decoder', crate='octo-squirrel-server')
     keys = List((symarr('cmdkey0', 16),))
-    scodec = Agg('struct', (keys, Enum(bv64(0), {}, 'DecodeState'), Enum(bv64(0), {}, 'EncodeState')), 'ServerAeadCodec')
+    scodec = Agg('struct', (keys, Enum(bv64(0), {}, 'DecodeState'), Enum(bv64(0), {}, 'EncodeState'), (F, 'bool')), 'ServerAeadCodec')
 
     def setup_s(ex):
         vmess_option_contract(ex)
